@@ -136,6 +136,18 @@ IndexCases ==
     \cup { IndexCase(<<3>>, "mask", m, LET keep == { i \in 0..2 : m[i + 1] = 1 } IN
                                         [k \in 1..Cardinality(keep) |-> CHOOSE i \in keep : Cardinality({ j \in keep : j < i }) = k - 1],
                      << Cardinality({ i \in 0..2 : m[i + 1] = 1 }) >>) : m \in { <<1, 0, 1>>, <<0, 0, 0>>, <<1, 1, 1>>, <<0, 1, 0>> } }
+    \* integer-array ("fancy") indexing of the first axis, incl. repeats and negative entries
+    \cup { LET n == sh[1]  P == Prod(Tail(sh))
+               norm == [k \in 1..Len(idx) |-> IF idx[k] < 0 THEN idx[k] + n ELSE idx[k]]
+               pos == [q \in 1..(Len(idx) * P) |-> norm[((q - 1) \div P) + 1] * P + ((q - 1) % P)]
+           IN  IndexCase(sh, "fancy", idx, pos, <<Len(idx)>> \o Tail(sh))
+             : sh \in Shapes, idx \in { <<0, 0>>, <<-1, 0>>, <<0>> } }
+    \* slices with a step: reversed and every other row of the first axis
+    \cup { LET n == sh[1]  P == Prod(Tail(sh))
+               rows == IF st = -1 THEN [k \in 1..n |-> n - k] ELSE [k \in 1..((n + 1) \div 2) |-> 2 * (k - 1)]
+               pos == [q \in 1..(Len(rows) * P) |-> rows[((q - 1) \div P) + 1] * P + ((q - 1) % P)]
+           IN  IndexCase(sh, "step", <<st>>, pos, <<Len(rows)>> \o Tail(sh))
+             : sh \in Shapes, st \in {-1, 2} }
     \* field access returns the stored column
     \cup { IndexCase(sh, "field", <<>>, RangeSeq(0, Prod(sh)), sh) : sh \in Shapes }
 
